@@ -113,7 +113,7 @@ def run(ctx):
                         else:
                             summary |= _fmt_of(a, {}, {TOP})
     summary.discard(TOP)
-    ctx.require(summary, "no producer of a problem matrix found")
+    ctx.require(summary, "no producer of a problem matrix found", rules=['C13.f'])
     n_sub = 0
     for fn in sorted(p.all_functions(), key=lambda f: f.qualname):
         if fn.parent is not None:
@@ -159,11 +159,11 @@ def run(ctx):
                    "merge, so tolil() never ran) this raises TypeError: '%s_matrix' object is not subscriptable" % (
                        k, sorted(bad), "item assignment" if store else "subscripting", sorted(bad)[0] if bad else "?"),
                    node=n, ok_detail="format %s" % sorted(f))
-    ctx.require(n_sub >= 15, "fewer than 15 typed sparse subscripts found")
+    ctx.require(n_sub >= 15, "fewer than 15 typed sparse subscripts found", rules=['C13.f'])
 
     # ================================================================= C13.d
     mp = p.cls("OptimProblem").methods.get("__make_periodic__")
-    ctx.require(mp is not None, "OptimProblem.__make_periodic__ vanished")
+    ctx.require(mp is not None, "OptimProblem.__make_periodic__ vanished", rules=['C13.d', 'C13.g'])
     n_d = 0
     for st in au.walk_stmts(mp.body):
         if isinstance(st, (ast.Assign, ast.AugAssign)):
@@ -177,7 +177,7 @@ def run(ctx):
                 ctx.ob("C13.d", mp, au.short(st, 80), set(calls) == {"sum"},
                        "the %s of joined variables are aggregated with %s: the leading variable stands for all of them, so their %s must be "
                        "*summed* - anything else changes the value of the periodic problem" % (what, sorted(set(calls)), what), node=st)
-    ctx.require(n_d >= 2, "aggregation of costs / columns in the periodic merge not found")
+    ctx.require(n_d >= 2, "aggregation of costs / columns in the periodic merge not found", rules=['C13.d'])
 
     # ================================================================= C13.g
     aggs = []
@@ -249,9 +249,9 @@ def run(ctx):
 
     # ================================================================= C15.d
     pf = p.fn_opt("Portfolio.setup_optim_problem")
-    ctx.require(pf is not None, "Portfolio.setup_optim_problem vanished")
+    ctx.require(pf is not None, "Portfolio.setup_optim_problem vanished", rules=['C15.d'])
     fix_if = [s2 for s2 in au.walk_stmts(pf.body) if isinstance(s2, ast.If) and "fix_time_window" in au.names_in(s2.test)]
-    ctx.require(bool(fix_if), "fix_time_window branch vanished")
+    ctx.require(bool(fix_if), "fix_time_window branch vanished", rules=['C15.d'])
     roles = local_roles(pf)
     other = []
     for s2 in au.walk_stmts(fix_if[0].body):
@@ -269,7 +269,7 @@ def run(ctx):
 
     # ================================================================= C04.c
     io_fn = p.fn_opt("io.extract_output")
-    ctx.require(io_fn is not None, "io.extract_output vanished")
+    ctx.require(io_fn is not None, "io.extract_output vanished", rules=['C04.c'])
     val = [st for st in au.walk_stmts(io_fn.body) if isinstance(st, ast.Assign) and isinstance(st.targets[0], ast.Subscript)
            and au.const_str(st.targets[0].slice) == "value"]
     ok = bool(val) and all(isinstance(st.value, ast.Attribute) and st.value.attr == "value" and isinstance(st.value.value, ast.Name)
